@@ -231,6 +231,7 @@ TABLE.update({
     "c02_expand_nested_merge_not_flattened.diff": ("box", "contracts.c12:expand_merges:expand_merges_arg_sets", None),
     "c12_expand_source_not_resolved.diff": ("box", "contracts.c12:expand_merges:expand_merges_arg_sets", None),
     "c02_expand_merge_origin_forgotten.diff": ("box", "contracts.c12:expand_merges:expand_merges_arg_sets", None),
+    "c06_bundle_wire_conflict_ignored.diff": ("box", "contracts.c12:plan_colors:arg_sets(quick)", None),
     "c12_populate_ignores_planned_colour.diff": ("box", "contracts.c12:populate:populate_arg_sets", None),
     "c04_populate_feedback_pair_into_tree.diff": ("box", "contracts.c12:populate:populate_arg_sets", None),
     "c12_populate_groups_by_signal_only.diff": ("box", "contracts.c12:populate:populate_arg_sets", None),
